@@ -16,11 +16,13 @@ pub struct Rw {
     pub field_methods: std::collections::HashMap<String, String>,
     /// by-value parameters of the number type itself (receivers for which the field-trait method is found first)
     pub field_recv: HashSet<String>,
+    /// the plain-float unit: f64 -> Fp, <f64>::f -> Fp::std_f, float literals -> Fp::lit
+    pub float_unit: bool,
 }
 
 impl Rw {
     pub fn new(ints: HashSet<String>) -> Self {
-        Rw { dims: HashSet::new(), ints, counts: BTreeMap::new(), err: None, rename_self: false, field_methods: Default::default(), field_recv: HashSet::new() }
+        Rw { dims: HashSet::new(), ints, counts: BTreeMap::new(), err: None, rename_self: false, field_methods: Default::default(), field_recv: HashSet::new(), float_unit: false }
     }
     fn bump(&mut self, k: &'static str) {
         *self.counts.entry(k).or_insert(0) += 1;
@@ -58,6 +60,11 @@ fn strip_known_generics(path: &mut syn::Path, rw: &mut Rw) {
         if n == 1 && (rw.dims.contains(&id) || id == "U1") && seg.arguments.is_none() {
             seg.ident = syn::Ident::new("Dm", seg.ident.span());
             rw.bump("R1_dim_to_Dm");
+            continue;
+        }
+        if rw.float_unit && n == 1 && id == "f64" {
+            seg.ident = syn::Ident::new("Fp", seg.ident.span());
+            rw.bump("R1_f64_to_Fp");
             continue;
         }
         if n >= 1 && i == 0 && seg.arguments.is_none() {
@@ -121,6 +128,35 @@ impl VisitMut for Rw {
                                 return;
                             }
                         }
+                    }
+                }
+            }
+        }
+        if self.float_unit {
+            // float literal -> Fp::lit(Ghost(q)); <f64>::EPSILON -> Fp::epsilon()
+            if let Expr::Lit(l) = e {
+                if matches!(l.lit, syn::Lit::Float(_)) {
+                    if let Some(r) = float_lit_to_real(e) {
+                        let ts: proc_macro2::TokenStream = r.parse().unwrap();
+                        *e = parse_quote!(Fp::lit(Ghost(#ts)));
+                        self.bump("R3_float_literal");
+                        return;
+                    }
+                }
+            }
+            if let Expr::Path(p) = e {
+                if let Some(q) = &p.qself {
+                    let tn = crate::db::type_last_ident(&q.ty).map(|x| x.0).unwrap_or_default();
+                    if tn == "f64" && p.path.segments.len() == 1 {
+                        let id = p.path.segments[0].ident.clone();
+                        if id == "EPSILON" {
+                            *e = parse_quote!(Fp::epsilon());
+                        } else {
+                            let nn = syn::Ident::new(&format!("std_{id}"), id.span());
+                            *e = parse_quote!(Fp::#nn);
+                        }
+                        self.bump("R1_float_inherent");
+                        return;
                     }
                 }
             }
